@@ -316,14 +316,31 @@ def addLink (tol : Rat) (pts : List V3) (leader follower : V3) : Out :=
 inductive GridOp where
   | clamp (pos : V3)
   | link (leader follower : V3)
+  /-- `SketchOptimizer.auto_optimize()`: a clamp on every non-boundary vertex, then the optimisation -/
+  | auto
   deriving Repr
 
-def gridRun (tol : Rat) (pts : List V3) : List GridOp → List Nat → List Out
+/-- the clamping loop of `SketchOptimizer.auto_optimize`: `self.add_clamp(PlaneClamp(junction.point, …))` for every
+    non-boundary junction in index order (`interior`); the first exception ends the call, vertices clamped before it
+    keep their clamp.  The optimisation that follows is not modelled (the harness runs it with zero iterations). -/
+def autoClamps (tol : Rat) (pts : List V3) : List Nat → List Nat → Out × List Nat
+  | [], st => (.accept, st)
+  | j :: js, st =>
+      match pts[j]? with
+      | none => (.reject "*", st)
+      | some p =>
+          match (addClamp tol pts st p).1 with
+          | .accept => autoClamps tol pts js (addClamp tol pts st p).2
+          | .reject c => (.reject c, (addClamp tol pts st p).2)
+
+def gridRun (tol : Rat) (pts : List V3) (interior : List Nat) : List GridOp → List Nat → List Out
   | [], _ => []
   | .clamp pos :: ops, st =>
       let r := addClamp tol pts st pos
-      r.1 :: gridRun tol pts ops r.2
-  | .link l f :: ops, st => addLink tol pts l f :: gridRun tol pts ops st
+      r.1 :: gridRun tol pts interior ops r.2
+  | .link l f :: ops, st => addLink tol pts l f :: gridRun tol pts interior ops st
+  | .auto :: ops, st =>
+      (autoClamps tol pts interior st).1 :: gridRun tol pts interior ops (autoClamps tol pts interior st).2
 
 /-! ### the assembled flag of `Mesh` (mesh.py) -/
 
@@ -444,10 +461,11 @@ def projRun : PState → List ProjOp → List (Out × PState)
 def Bounded (st : PState) : Prop := ∀ ls ∈ st, ls.length ≤ 2
 
 /-- the clamped vertices after a history of calls -/
-def gridState (tol : Rat) (pts : List V3) : List GridOp → List Nat → List Nat
+def gridState (tol : Rat) (pts : List V3) (interior : List Nat) : List GridOp → List Nat → List Nat
   | [], st => st
-  | .clamp pos :: ops, st => gridState tol pts ops (addClamp tol pts st pos).2
-  | .link _ _ :: ops, st => gridState tol pts ops st
+  | .clamp pos :: ops, st => gridState tol pts interior ops (addClamp tol pts st pos).2
+  | .link _ _ :: ops, st => gridState tol pts interior ops st
+  | .auto :: ops, st => gridState tol pts interior ops (autoClamps tol pts interior st).2
 
 /-- state after a history given most-recent-first -/
 def stateRev : List MeshOp → MeshSt
@@ -470,7 +488,7 @@ def meshFold : MeshSt → List MeshOp → MeshSt
 /-! ### Line protocol
 
 `c20.call <name> <rationals [a,b,…]> <strings [s,…]>` → `accept|reject:<Class> pre|nopre`
-`c20.grid <points p;p;…> <ops clamp:p | link:p:p ;…>`  → outcomes joined by `,`
+`c20.grid <points p;p;…> <ops clamp:p | link:p:p | auto ;…> <non-boundary vertices [i,…]>` → outcomes joined by `,`
 `c20.mesh <ops add;assemble;…>`                         → outcomes joined by `,`
 `c20.proj <ops pedge:c1:c2:[l,…] | pside:side:l:0|1 | fpedge:0|1:corner:[l,…] | fproj:0|1:l:0|1 ;…>`
                                                         → per call `outcome@slot0|…|slot11` (labels joined by `.`), joined by `;`
@@ -543,14 +561,16 @@ def parseGridOp? (s : String) : Option GridOp :=
   match s.splitOn ":" with
   | ["clamp", p] => do some (.clamp (← parseV3? p))
   | ["link", l, f] => do some (.link (← parseV3? l) (← parseV3? f))
+  | ["auto"] => some .auto
   | _ => none
 
 def handleGrid (args : List String) : Option String :=
   match args with
-  | [pts, ops] => do
+  | [pts, ops, interior] => do
       let pts ← (pts.splitOn ";").mapM parseV3?
       let ops ← (ops.splitOn ";").mapM parseGridOp?
-      some (showOuts (gridRun tolGen pts ops []))
+      let interior ← parseNatList? interior
+      some (showOuts (gridRun tolGen pts interior ops []))
   | _ => none
 
 def parseMeshOp? : String → Option MeshOp
